@@ -282,6 +282,7 @@ class Compose(Machine):
             ctx.probe("pwa_in_domain_law")
         err = float(np.abs(got - exp).max() / max(1.0, np.abs(exp).max())) if got.shape == exp.shape else float("inf")
         ctx.err("law", err)
+        ctx.out(why, cls, got)
         ctx.require(err <= TOL, "law", why + "_" + cls,
                     lambda: "%s (born %s): apply differs from the reference composition by %.3g (relative)\nmodel=%r" % (cls, e.born, err, [p if k == "H" else type(p).__name__ for k, p in prims][:4]))
         if e.H is not None and hasattr(e.obj, "h_matrix"):
